@@ -164,6 +164,26 @@ Theorem C20_delete_returns_what_it_removed :
 Proof. exact delete_end_to_end. Qed.
 Print Assumptions C20_delete_returns_what_it_removed.
 
+(* subscriptions: from the core's channel to the application's stream.  What a subscription's channel carries is C03's
+   business (C03_stream_all: exactly one event per accepted change that concerns it, in order); the session layer turns
+   the events of that channel, one by one and in order, into State messages under the subscribe request's id and nothing
+   else into such messages -- provided no second channel is filed under the same session and id (known finding F24) --,
+   and the library hands each of them to the subscription's stream and to nothing else, its bookkeeping unchanged *)
+Theorem C20_channel_to_wire :
+  forall w o sn tid inst,
+  lookup_n inst (w_chan w) = Some (sn, tid, KState) -> sess_open w sn = true ->
+  (forall inst' k', lookup_n inst' (w_chan w) = Some (sn, tid, k') -> inst' = inst) ->
+  filter (to_sub sn tid) (route_events w o) =
+  flat_map (fun e => match state_msg tid e with Some m => [(sn, m)] | None => [] end) (Proofs.StreamProof.chan inst (o_events o)).
+Proof. exact channel_to_wire. Qed.
+Print Assumptions C20_channel_to_wire.
+
+Theorem C20_wire_to_stream :
+  forall c tid call x, cb_find tid (sub c) = Some call -> cb_find tid (state c) = None ->
+    on_msg c (SState tid x) = (c, [DEvent call (SState tid x)]).
+Proof. exact wire_to_stream. Qed.
+Print Assumptions C20_wire_to_stream.
+
 Theorem C20_fresh_invariant :
   Fresh cinit /\
   (forall c m, Fresh c -> Fresh (fst (on_msg c m))) /\
